@@ -56,7 +56,10 @@ class ClientAuthenticator:
             args = b''
         else:
             cmd, args = line.split(b' ', 1)
-        m = getattr(self, '_auth_' + cmd.decode(), None)
+        try:
+            m = getattr(self, '_auth_' + cmd.decode('ascii'), None)
+        except UnicodeDecodeError:
+            m = None
         if m:
             m(args)
         else:
